@@ -181,9 +181,10 @@ JoinRecFx(S, s, attrs, feats, local, q, sid) ==
 JoinFx(S, s, j, sid) ==
   LET attrs == IF j.local
                THEN [authid |-> j.authid, authrole |-> "trusted", authmethod |-> "local",
-                     authprovider |-> "static", color |-> j.color]
+                     authprovider |-> "static", color |-> j.color, tr |-> ""]
+               \* tr: the network transport, "" = none; nothing in the routing depends on it (C15)
                ELSE [authid |-> j.authid, authrole |-> RoleOfUser(S.cfg, j.authid), authmethod |-> "ticket",
-                     authprovider |-> "static", color |-> j.color]
+                     authprovider |-> "static", color |-> j.color, tr |-> j.tr]
   IN JoinRecFx(S, s, attrs, Rng(j.feats), j.local, j.q, sid)
 
 \* --------------------------------------------------------------------------
@@ -454,13 +455,19 @@ InterruptMsg(S, c, mode, reason) ==
   [Base EXCEPT !.k = "INTERRUPT", !.req = S.calls[c].inv,
                !.d = {<<"mode", mode>>, <<"reason", reason>>}, !.t = S.now]
 
+\* Can a message for s be queued right now?  (a reading session always has room)
+Room(S, s) == ~S.sess[s].stalled \/ Len(S.sess[s].pend) < S.sess[s].cap
+
 \* the dealer's cancel: used by CANCEL, by the call timer and by a departing callee
 CancelCoreFx(S, c, mode, reason) ==
   LET cl  == S.calls[c]
       S1  == [S EXCEPT !.calls[c].canceled = TRUE, !.calls[c].deadline = 0]
       S2  == IF mode # "skip" /\ CanInterrupt(S, cl.callee)
              THEN Emit(S1, cl.callee, InterruptMsg(S, c, mode, reason)) ELSE S1
-  IN IF mode = "kill" /\ CanInterrupt(S, cl.callee) THEN S2
+  \* kill: the callee's answer to the INTERRUPT ends the call - provided the INTERRUPT could be
+  \* queued for it; a callee that does not read and whose queue is full is never waited for (C07):
+  \* the call then ends at once, as with killnowait
+  IN IF mode = "kill" /\ CanInterrupt(S, cl.callee) /\ Room(S, cl.callee) THEN S2
      ELSE Emit(DropCall(S2, c), c[1], ErrorMsg(T_CALL, c[2], reason, S))
 
 CancelFx(S, s, req, mode) ==
@@ -472,9 +479,6 @@ CancelFx(S, s, req, mode) ==
   ELSE CancelCoreFx(S, c, m, ErrCanceled)
 
 CallsByInv(S, callee, inv) == {c \in DOMAIN S.calls : S.calls[c].callee = callee /\ S.calls[c].inv = inv}
-
-\* Can a message for s be queued right now?  (a reading session always has room)
-Room(S, s) == ~S.sess[s].stalled \/ Len(S.sess[s].pend) < S.sess[s].cap
 
 YieldFx(S, s, inv, progress, tag) ==
   LET cs == CallsByInv(S, s, inv) IN
